@@ -16,6 +16,7 @@ from typing import Any, Dict, List, Tuple
 from pkg_resources import resource_filename
 
 from nrel.hive.app import hive_cosim
+from nrel.hive.runner import runner_payload_ops
 from nrel.hive.initialization.load import load_config, load_simulation
 from nrel.hive.model.sim_time import SimTime
 from nrel.hive.runner.local_simulation_runner import LocalSimulationRunner
@@ -156,7 +157,7 @@ def _gen_case(rng: random.Random, k: int) -> Dict[str, Any]:
     rem = rng.choice([0, 0, 1, dt // 2, dt - 1])            # end time not always a multiple of dt away
     end = start + n * dt - rem
     variant = {"yaml": rng.choice(SCENARIOS), "lazy": rng.random() < 0.5, "start": start, "end": end, "dt": dt,
-               "timeout": rng.choice([600, 600, 120, dt]), "pulse": rng.random() < 0.5}
+               "timeout": rng.choice([600, 600, 120, dt]), "pulse": rng.random() < 0.5, "reinject": rng.random() < 0.6}
     # split of n into 2-4 calls (zero-length calls allowed)
     cuts = sorted(rng.randint(0, n) for _ in range(rng.randint(1, 3)))
     parts = [b - a for a, b in zip([0] + cuts, cuts + [n])]
@@ -173,6 +174,13 @@ def _gen_case(rng: random.Random, k: int) -> Dict[str, Any]:
             rp = res.runner_payload
             done += p
             clock.append([done, int(res.sim_time)])
+            if variant["reinject"]:
+                # the co-simulation round trip between two calls: take a generator out of the payload
+                # and put it back unchanged (which one: the scenario's choice)
+                names = list(rp.u.step_update.instruction_generator_order)
+                name = names[rng.randrange(len(names))]
+                ig = runner_payload_ops.get_instruction_generator(rp, name)
+                rp = runner_payload_ops.update_instruction_generator(rp, ig)
         A = (rp, A[1])
         # (b) one call
         B0 = build(variant)
